@@ -273,4 +273,24 @@ theorem nextOf_filter_map {α β : Type} (p : α → Bool) (g : α → β) (l : 
     · have h' : p x = false := by simpa using h
       simp only [List.filter_cons, h', Bool.false_eq_true, if_false, ih, List.find?_cons]
 
+/-! ### item assignment / deletion inside the list, `enumerate` -/
+
+theorem setItem_lt {α : Type} (L : List α) (n : Nat) (v : α) (h : n < L.length) :
+    setItem L (n : Int) v = .ok (L.set n v) := by
+  unfold setItem pyIndex
+  have h1 : ¬ ((n : Int) < 0) := by omega
+  simp [h1, h]
+
+theorem delItem_lt {α : Type} (L : List α) (n : Nat) (h : n < L.length) :
+    delItem L (n : Int) = .ok (L.eraseIdx n) := by
+  unfold delItem pyIndex
+  have h1 : ¬ ((n : Int) < 0) := by omega
+  simp [h1, h]
+
+theorem enumerateFrom_map_snd {α : Type} (t : List α) (i : Int) :
+    (enumerateFrom i t).map (fun p_ => p_.2) = t := by
+  induction t generalizing i with
+  | nil => rfl
+  | cons x t ih => simp [enumerateFrom, ih]
+
 end Wz.Pre
